@@ -24,7 +24,7 @@ def jobs(tier):
         mk('C06', 'restart_with_new_bus', S.restart_with_new_bus()),
         mk('C06', 'warm_other_bus/AB', S.warm_other_bus_during_await(('A', 'B'))),
         mk('C06', 'warm_other_bus/AB/second_loop', S.warm_other_bus_during_await(('A', 'B'), prelude=True)),
-        mk('C06', 'relay_forward_while_third_busy', S.relay_forward_while_third_busy()),
+        mk('C06', 'relay_forward_while_third_busy', S.relay_forward_while_third_busy(), split={'t1': 3}),
         mk('C06', 'long_handler_other_bus_waits', S.long_handler_other_bus_waits()),
         mk('C06', 'three_bus_stop', S.three_bus_stop()),
         mk('C06', 'late_first_use', S.late_first_use()),
